@@ -36,6 +36,9 @@ def internal_mutex(fn, arg):
 
 def run(ctx):
     P = ctx.prog()
+    c01.core_dependency(ctx, P, "core.dep", ('fiber_manager_wait_in_mpsc_queue', 'fiber_manager_wait_in_mpsc_queue_and_unlock', 'fiber_manager_wake_from_mpsc_queue', 'fiber_cond_wait', 'fiber_cond_signal', 'fiber_cond_broadcast'),
+                        "the condition variable's sleep/wake path (wait_in_mpsc_queue_and_unlock / wake_from_mpsc_queue)",
+                        'a waiter marked resumable while it is still running returns from fiber_cond_wait without a matching signal')
     w = P.fn("fiber_cond_wait")
     h = P.fn("fiber_manager_wait_in_mpsc_queue_and_unlock")
     o = ctx.ob("wait.atomic", w, "waiter_count is incremented before the enqueue; the caller's mutex is released only through mutex_to_unlock (no unlock "
